@@ -97,12 +97,15 @@ static void op_cell(const McArg *a) {
             MC_CHECK(!rep[f], "getIcosahedronFaces(%" PRIx64 ") reports face %d whose centre is %.3f rad away", h, f, acos(ddot(cv, F[f])));
             continue;
         }
-        int may = touches(poly, cb.numVerts, 1.0, cv, e1, e2, f, -(1e-9 + 1e-6 * R));
+        // may: the cell shrunk by 1e-4 about its centre still reaches into the face's region (1e-6 R of slack): a cell that merely touches an
+        // icosahedron edge with a corner or an edge has no interior point on the other face and does not qualify; genuine crossings are
+        // rational fractions of the cell size (>= 1e-3 R)
+        int may = touches(poly, cb.numVerts, 1.0 - 1e-4, cv, e1, e2, f, -(1e-12 + 1e-6 * R));
         int must = touches(poly, cb.numVerts, 0.999, cv, e1, e2, f, 1e-11);
         nmay += may;
         nmust += must;
         MC_CHECK(!(must && !rep[f]), "getIcosahedronFaces(%" PRIx64 ") omits face %d although the cell's interior intersects it", h, f);
-        MC_CHECK(!(rep[f] && !may), "getIcosahedronFaces(%" PRIx64 ") reports face %d which the cell does not touch", h, f);
+        MC_CHECK(!(rep[f] && !may), "getIcosahedronFaces(%" PRIx64 ") reports face %d which the cell's interior does not intersect (at most a corner or an edge touches it)", h, f);
     }
     if (nmay > 1) mc_nontrivial();
     if (nmay != nmust) mc_ctr(3, 1);
